@@ -20,69 +20,7 @@ def run(ctx, config='rel-all'):
         ctx.anchor_missing('O1', 'size_of::<ChunkFooter>()')
         return
     ctx.assume("A1 no overflow in the accumulated counter (bounded by the address space)", "J3 layout.size == usable + FOOTER_SIZE (C01.O5)")
-    sites = set()
-    writers = set()
-    for key, val in A.items():
-        if val is None:
-            continue
-        I, res, body = val
-        for e in res.events:
-            if e.kind != 'store':
-                continue
-            fa = arena.footer_agg(e)
-            ff = arena.footer_field(e)
-            fn = arena.short(arena.innermost(e))
-            if fa:
-                Aaddr, aggv = fa
-                ab, prev, lay = field_of(aggv, 'allocated_bytes'), field_of(aggv, 'prev'), field_of(aggv, 'layout')
-                sites.add((fn, 'agg'))
-                writers.add(arena.innermost(e))
-                P = arena.mk_prover(I, e, res)
-                want = app('add', ('load', ('fld', ('deref', prev), 'ChunkFooter.allocated_bytes'), None), app('sub', app('size', lay), footer_size))
-                okv = False
-                # the load epoch of prev.allocated_bytes is whatever the code read: accept any epoch of that location
-                d, c = lin(P.norm(ab))
-                pbase = prev[1] if prev[0] == 'addr' else ('deref', prev)
-                loads = [k for k in d if k[0] == 'load' and k[1] == ('fld', pbase, 'ChunkFooter.allocated_bytes') and d[k] == 1]
-                if len(loads) == 1:
-                    rest = dict(d)
-                    del rest[loads[0]]
-                    usable = from_lin(rest, c)
-                    okv = P.eq(usable, app('sub', app('size', lay), footer_size))
-                if okv:
-                    ctx.ok('O1', '%s via %s: new footer.allocated_bytes == prev.allocated_bytes + (layout.size - FOOTER_SIZE)' % (fn, key), 'linear term equality, prev = the footer stored in .prev')
-                else:
-                    ctx.violation('O1', fn, 'write(ChunkFooter{allocated_bytes})', 'new chunk records allocated_bytes = %s, which is not prev.allocated_bytes + (layout.size - %d) for prev=%s layout.size=%s' % (show(ab)[:120], footer_size[1], show(prev)[:40], show(app('size', lay))[:80]), e.span)
-            elif ff and ff[1] == 'allocated_bytes':
-                F = ff[0]
-                sites.add((fn, 'field'))
-                writers.add(arena.innermost(e))
-                P = arena.mk_prover(I, e, res)
-                # prev of F must be the sentinel at this point (accumulated bytes of the sentinel are 0)
-                prev_stores = [s for s in res.events[:res.events.index(e)] if s.kind == 'store' and arena.footer_field(s) == (F, 'prev')]
-                prev_now = prev_stores[-1].val if prev_stores else I.read(e.state.copy(), ('fld', ('deref', F), 'ChunkFooter.prev'))
-                prev_is_sentinel = prev_now[0] == 'addr' and prover.root_static(prev_now[1]) == 'EMPTY_CHUNK'
-                lay = ('load', ('fld', ('deref', F), 'ChunkFooter.layout'), 0)
-                eqv = P.eq(e.val, app('sub', app('size', lay), footer_size))
-                if prev_is_sentinel and eqv:
-                    ctx.ok('O1', '%s via %s: allocated_bytes := layout.size - FOOTER_SIZE with prev == sentinel (0 bytes)' % (fn, key), 'linear term equality')
-                else:
-                    ctx.violation('O1', fn, 'store(ChunkFooter.allocated_bytes)', 'allocated_bytes := %s; expected size(F.layout) - %d with F.prev being the sentinel (prev now: %s)' % (show(e.val)[:120], footer_size[1], show(prev_now)[:60]), e.span)
-    ctx.floor('O1', len(sites), 2, 'stores of allocated_bytes (acquirer aggregate, reset)')
-    # the static initializer
-    sb = [b for b in db.raw['bodies'] if b['kind'] == 'static' and b['id'].endswith('EMPTY_CHUNK')]
-    if sb:
-        J = arena.ArenaInterp(db)
-        r = J.run_entry(sb[0]['id'])
-        v = r.ret
-        inner = field_of(v, '0') if v and v[0] == 'agg' else None
-        ab = field_of(inner, 'allocated_bytes') if inner and inner[0] == 'agg' else None
-        if ab == C(0):
-            ctx.ok('O1', 'static EMPTY_CHUNK.allocated_bytes == 0', 'evaluated initializer body')
-        else:
-            ctx.violation('O1', 'EMPTY_CHUNK', 'init(allocated_bytes)', 'the sentinel accounts %s bytes' % (show(ab) if ab else '?'))
-    else:
-        ctx.anchor_missing('O1', 'static EMPTY_CHUNK initializer')
+    writers = check_j4(ctx, A, db, footer_size, 'O1')
     # ---- R3 who writes
     acq = {f for f, _ in c01.global_alloc_callers(db).get('alloc', [])}
     rel_callers = set()
@@ -124,6 +62,73 @@ def run(ctx, config='rel-all'):
             ctx.violation('O2', 'Bump::allocated_bytes_including_metadata', 'return', 'returns %s; expected allocated_bytes() + count(raw chunk iterator from the current footer) * size_of::<ChunkFooter>()' % show(r)[:160], body.get('span'))
     else:
         ctx.anchor_missing('O2', 'Bump::allocated_bytes_including_metadata')
+
+
+def check_j4(ctx, A, db, footer_size, RULE_NAME):
+    sites = set()
+    writers = set()
+    for key, val in A.items():
+        if val is None:
+            continue
+        I, res, body = val
+        for e in res.events:
+            if e.kind != 'store':
+                continue
+            fa = arena.footer_agg(e)
+            ff = arena.footer_field(e)
+            fn = arena.short(arena.innermost(e))
+            if fa:
+                Aaddr, aggv = fa
+                ab, prev, lay = field_of(aggv, 'allocated_bytes'), field_of(aggv, 'prev'), field_of(aggv, 'layout')
+                sites.add((fn, 'agg'))
+                writers.add(arena.innermost(e))
+                P = arena.mk_prover(I, e, res)
+                want = app('add', ('load', ('fld', ('deref', prev), 'ChunkFooter.allocated_bytes'), None), app('sub', app('size', lay), footer_size))
+                okv = False
+                # the load epoch of prev.allocated_bytes is whatever the code read: accept any epoch of that location
+                d, c = lin(P.norm(ab))
+                pbase = prev[1] if prev[0] == 'addr' else ('deref', prev)
+                loads = [k for k in d if k[0] == 'load' and k[1] == ('fld', pbase, 'ChunkFooter.allocated_bytes') and d[k] == 1]
+                if len(loads) == 1:
+                    rest = dict(d)
+                    del rest[loads[0]]
+                    usable = from_lin(rest, c)
+                    okv = P.eq(usable, app('sub', app('size', lay), footer_size))
+                if okv:
+                    ctx.ok(RULE_NAME, '%s via %s: new footer.allocated_bytes == prev.allocated_bytes + (layout.size - FOOTER_SIZE)' % (fn, key), 'linear term equality, prev = the footer stored in .prev')
+                else:
+                    ctx.violation(RULE_NAME, fn, 'write(ChunkFooter{allocated_bytes})', 'new chunk records allocated_bytes = %s, which is not prev.allocated_bytes + (layout.size - %d) for prev=%s layout.size=%s' % (show(ab)[:120], footer_size[1], show(prev)[:40], show(app('size', lay))[:80]), e.span)
+            elif ff and ff[1] == 'allocated_bytes':
+                F = ff[0]
+                sites.add((fn, 'field'))
+                writers.add(arena.innermost(e))
+                P = arena.mk_prover(I, e, res)
+                # prev of F must be the sentinel at this point (accumulated bytes of the sentinel are 0)
+                prev_stores = [s for s in res.events[:res.events.index(e)] if s.kind == 'store' and arena.footer_field(s) == (F, 'prev')]
+                prev_now = prev_stores[-1].val if prev_stores else I.read(e.state.copy(), ('fld', ('deref', F), 'ChunkFooter.prev'))
+                prev_is_sentinel = prev_now[0] == 'addr' and prover.root_static(prev_now[1]) == 'EMPTY_CHUNK'
+                lay = ('load', ('fld', ('deref', F), 'ChunkFooter.layout'), 0)
+                eqv = P.eq(e.val, app('sub', app('size', lay), footer_size))
+                if prev_is_sentinel and eqv:
+                    ctx.ok(RULE_NAME, '%s via %s: allocated_bytes := layout.size - FOOTER_SIZE with prev == sentinel (0 bytes)' % (fn, key), 'linear term equality')
+                else:
+                    ctx.violation(RULE_NAME, fn, 'store(ChunkFooter.allocated_bytes)', 'allocated_bytes := %s; expected size(F.layout) - %d with F.prev being the sentinel (prev now: %s)' % (show(e.val)[:120], footer_size[1], show(prev_now)[:60]), e.span)
+    ctx.floor(RULE_NAME, len(sites), 2, 'stores of allocated_bytes (acquirer aggregate, reset)')
+    # the static initializer
+    sb = [b for b in db.raw['bodies'] if b['kind'] == 'static' and b['id'].endswith('EMPTY_CHUNK')]
+    if sb:
+        J = arena.ArenaInterp(db)
+        r = J.run_entry(sb[0]['id'])
+        v = r.ret
+        inner = field_of(v, '0') if v and v[0] == 'agg' else None
+        ab = field_of(inner, 'allocated_bytes') if inner and inner[0] == 'agg' else None
+        if ab == C(0):
+            ctx.ok(RULE_NAME, 'static EMPTY_CHUNK.allocated_bytes == 0', 'evaluated initializer body')
+        else:
+            ctx.violation(RULE_NAME, 'EMPTY_CHUNK', 'init(allocated_bytes)', 'the sentinel accounts %s bytes' % (show(ab) if ab else '?'))
+    else:
+        ctx.anchor_missing(RULE_NAME, 'static EMPTY_CHUNK initializer')
+    return writers
 
 
 def is_ccf_load(t):
